@@ -61,6 +61,13 @@ CONSTANT Dev   \* "EnvKeptOnAbort": an invocation that ends in a host-side excep
                \*    call left in the Lua runtime (class of the seeded change of round 8)
                \* "NestedSharesCallerEnv": a nested invocation runs in the environment on top of lua_env_stack itself
                \*    instead of a clone of it (class of the seeded change of round 7)
+               \* "HandedOutObjectsMemoised": a constructor of a retained library keeps the objects it has built and hands
+               \*    the SAME object out again for the same request: what one invocation writes into "its" object is there
+               \*    for every later invocation / page of the context that asks for it (class of the seeded change of round 9;
+               \*    never as-is)
+               \* "ContentLanguageObjectShared": mw.language.getContentLanguage() hands out ONE object (a local of the
+               \*    retained library mw_language) for the whole life of the Lua runtime (as-is); ideal: as for every
+               \*    other constructor, an object that carries nothing an earlier invocation wrote
 
 \* ---- invocation kinds (the harness has one concrete #invoke per kind) ----
 Counter == {"bump", "bump2", "peek"}        \* Module:Ctr, module-level `local n = 0`
@@ -79,7 +86,26 @@ Raising == {"nomod", "nilmod", "synmod", "badutf", "timeout"}   \* end in an exc
 \* small limit, slow = Module:F slow (runs 1-2 s) called without a limit, lim_slow = the same called with a small limit
 TimeKinds == {"lim_peek", "slow", "lim_slow"}
 Limited == {"timeout", "lim_peek", "lim_slow"}      \* the call of these kinds is given a small time limit
-Simple  == Probes \cup LoadData \cup InBand \cup Raising \cup TimeKinds
+\* (round 9) OBJECTS HANDED OUT by the constructors of the retained libraries (mw.title.*, mw.language.*, mw.html,
+\* mw.message): Module:Obj obtains an object from a constructor and reports the state of its writable fields ("init" =
+\* as a fresh context hands it out); the writer kinds (ow_) then write them ("set"), the reader kinds (or_) only read.
+\* The object a request NAMES (ObjKey): the same title reached through different constructors is one key (the main
+\* namespace has no subpages: the base page of T/sub is T/sub itself, another title than T).
+\*   tnew  mw.title.new(T)            tmake mw.title.makeTitle(0, T)     tbase mw.title.new(T .. "/sub").basePageTitle
+\*   tcur  mw.title.getCurrentTitle() tsub  mw.title.new(T):subPageTitle("sub")
+\*   lnew  mw.language.new("en")      lcont mw.language.getContentLanguage()
+\*   html  mw.html.create("div")      msg   mw.message.new("obj-msg")
+ObjW == {"ow_tnew", "ow_tmake", "ow_tbase", "ow_tcur", "ow_tsub", "ow_lnew", "ow_lcont", "ow_html", "ow_msg"}
+ObjR == {"or_tnew", "or_tmake", "or_tbase", "or_tcur", "or_tsub", "or_lnew", "or_lcont", "or_html", "or_msg"}
+ObjKinds == ObjW \cup ObjR
+ObjKeys == {"T", "B", "C", "S", "L", "LC", "H", "M"}
+ObjKey(k) == CASE k \in {"ow_tnew", "or_tnew", "ow_tmake", "or_tmake"} -> "T" [] k \in {"ow_tbase", "or_tbase"} -> "B"
+               [] k \in {"ow_tcur", "or_tcur"} -> "C" [] k \in {"ow_tsub", "or_tsub"} -> "S"
+               [] k \in {"ow_lnew", "or_lnew"} -> "L" [] k \in {"ow_lcont", "or_lcont"} -> "LC"
+               [] k \in {"ow_html", "or_html"} -> "H" [] k \in {"ow_msg", "or_msg"} -> "M"
+\* the object handed out for this key is one and the same for the whole life of the Lua runtime
+ObjShared(key) == "HandedOutObjectsMemoised" \in Dev \/ (key = "LC" /\ "ContentLanguageObjectShared" \in Dev)
+Simple  == Probes \cup LoadData \cup InBand \cup Raising \cup TimeKinds \cup ObjKinds
 \* Module:N: sets the global MARK, then makes a NESTED #invoke through frame:preprocess (n_) or
 \* frame:expandTemplate (t_) and returns the nested result in brackets
 Nested  == {"n_nomod", "n_nilmod", "n_synmod", "n_badutf", "n_nofn", "n_err", "n_loaderr", "n_bump", "t_nomod", "t_badutf", "t_bump"}
@@ -91,16 +117,19 @@ Kinds == Simple \cup Nested \cup {"page"}   \* "page": the caller begins a new p
 Disturbing == InBand \cup Raising \cup Nested
 
 \* page modules that exist, compile and return a table
-Mods == {"Ctr", "Req", "G", "R", "Str", "F", "N", "LD", "Tab", "V", "Nest", "Nest2"}
+Mods == {"Ctr", "Req", "G", "R", "Str", "F", "N", "LD", "Tab", "V", "Nest", "Nest2", "Obj"}
 ModOf(k) == CASE k \in Counter \cup {"lim_peek"} -> "Ctr" [] k \in {"slow", "lim_slow"} -> "F" [] k = "reqbump" -> "Req" [] k \in {"gset", "gget"} -> "G" [] k = "rget" -> "R"
               [] k \in {"sset", "sget"} -> "Str" [] k \in LoadData -> "LD" [] k \in {"nofn", "err", "badutf", "timeout"} -> "F"
               [] k = "nomod" -> "Nomod" [] k = "nilmod" -> "Nil" [] k = "synmod" -> "Syn" [] k = "loaderr" -> "Bad"
-              [] k \in Nested -> "N" [] k \in {"tset", "tget"} -> "Tab" [] k = "view" -> "V"
+              [] k \in Nested -> "N" [] k \in {"tset", "tget"} -> "Tab" [] k = "view" -> "V" [] k \in ObjKinds -> "Obj"
 
 Env0 == [g |-> "nil", s |-> "nil", t |-> "nil"]          \* _G after _lua_reset_env: no MARK, string.leaked = table.leaked = nil
 NoInst == [on |-> FALSE, n |-> 0, env |-> 0]
 Data0 == [ld |-> "init", lj |-> "init"]                \* field x of the two data tables as their pages define it
-S0 == [heap |-> <<>>, stk |-> <<>>, loaded |-> [m \in Mods |-> NoInst], data |-> Data0, lim |-> "default"]
+\* objs: the written fields of the object the runtime would hand out AGAIN for a key (only a deviation makes it do so: no
+\* reset, no start_page reaches a local of a retained library)
+S0 == [heap |-> <<>>, stk |-> <<>>, loaded |-> [m \in Mods |-> NoInst], data |-> Data0, lim |-> "default",
+       objs |-> [key \in ObjKeys |-> "init"]]
 TopIdx(s) == s.stk[Len(s.stk)]
 TopEnv(s) == IF s.stk = <<>> THEN Env0 ELSE s.heap[TopIdx(s)]
 
@@ -152,6 +181,9 @@ Body(s, k) ==
          [] k = "tset" -> R([s1 EXCEPT !.heap[inst.env].t = "set"], "val", s1.heap[inst.env].t, FALSE)
          [] k = "tget" -> R(s1, "val", s1.heap[inst.env].t, FALSE)
          [] k = "view" -> R(s1, "val", <<s1.heap[inst.env].g, s1.heap[inst.env].s, s1.heap[inst.env].t>>, FALSE)
+         \* a constructor builds a new object for every request; the write goes into THAT object and dies with it
+         [] k \in ObjW -> R(IF ObjShared(ObjKey(k)) THEN [s1 EXCEPT !.objs[ObjKey(k)] = "set"] ELSE s1, "val", s1.objs[ObjKey(k)], FALSE)
+         [] k \in ObjR -> R(s1, "val", s1.objs[ObjKey(k)], FALSE)
 
 Out(k, res, v, ires, iv) == [k |-> k, res |-> res, v |-> v, ires |-> ires, iv |-> iv]
 InvS(s, k) == LET b == Body(Push(SetLimit(Reset(s), k)), k) IN [s |-> Leave(b.s, Len(s.stk), b.ab), res |-> b.res, v |-> b.v]
